@@ -39,18 +39,21 @@ void ResidualGive::computeResidual(Vector<double>& result, const Vector<double>&
             /* Circle Section 0 */
             #pragma omp for
             for (int circle_task = 0; circle_task < num_circle_tasks; circle_task += 3) {
+                VERIF_ITER(circle_task);
                 int i_r = grid_.numberSmootherCircles() - circle_task - 1;
                 applyCircleSection(i_r, result, x);
             }
             /* Circle Section 1 */
             #pragma omp for
             for (int circle_task = 1; circle_task < num_circle_tasks; circle_task += 3) {
+                VERIF_ITER(circle_task);
                 int i_r = grid_.numberSmootherCircles() - circle_task - 1;
                 applyCircleSection(i_r, result, x);
             }
             /* Circle Section 2 */
             #pragma omp for nowait
             for (int circle_task = 2; circle_task < num_circle_tasks; circle_task += 3) {
+                VERIF_ITER(circle_task);
                 int i_r = grid_.numberSmootherCircles() - circle_task - 1;
                 applyCircleSection(i_r, result, x);
             }
@@ -58,6 +61,7 @@ void ResidualGive::computeResidual(Vector<double>& result, const Vector<double>&
             /* Radial Section 0 */
             #pragma omp for
             for (int radial_task = 0; radial_task < num_radial_tasks; radial_task += 3) {
+                VERIF_ITER(radial_task);
                 if (radial_task > 0) {
                     int i_theta = radial_task + additional_radial_tasks;
                     applyRadialSection(i_theta, result, x);
@@ -75,6 +79,7 @@ void ResidualGive::computeResidual(Vector<double>& result, const Vector<double>&
             /* Radial Section 1 */
             #pragma omp for
             for (int radial_task = 1; radial_task < num_radial_tasks; radial_task += 3) {
+                VERIF_ITER(radial_task);
                 if (radial_task > 1) {
                     int i_theta = radial_task + additional_radial_tasks;
                     applyRadialSection(i_theta, result, x);
@@ -95,6 +100,7 @@ void ResidualGive::computeResidual(Vector<double>& result, const Vector<double>&
             /* Radial Section 2 */
             #pragma omp for
             for (int radial_task = 2; radial_task < num_radial_tasks; radial_task += 3) {
+                VERIF_ITER(radial_task);
                 int i_theta = radial_task + additional_radial_tasks;
                 applyRadialSection(i_theta, result, x);
             }
